@@ -20,5 +20,11 @@ def run(rep, tier, seed):
         if len(s3) < 2: s3.append(case)
         if fail: rep.violation('dot[%s]' % case['kinds'], str(case['shapes']), '%s: %s' % (case, fail), {'kind': 'dot with a constant operand', 'case': case, 'failure': fail})
     rep.add_bounded('dot with a plain-array operand', m, len(keys), 'dot(ndarray, UTPM) and dot(UTPM, ndarray) for operand ranks 1..3 (including right operands of rank 3 whose last three axes have equal length): shape and every coefficient slice equal numpy.dot with the constant', s3, 'D<=3, P<=2, rank<=3')
+    m = 0; keys = set(); s4 = []
+    for case, fail in misc_checks.plain_dispatch(rng, tier):
+        m += 1; keys.add((case['function'], case['arg']))
+        if len(s4) < 2: s4.append(case)
+        if fail: rep.violation('plain call %s' % case['function'], '%s | %s' % (case['arg'], ' '.join(fail.split()[:2]) if fail.startswith('raises') else 'differs'), '%s: %s' % (case, fail), {'kind': 'plain-argument dispatch', 'case': case, 'failure': fail})
+    rep.add_bounded('plain arrays and scalars', m, len(keys), 'every callable of the algopy, algopy.special and algopy.fft namespaces with a NumPy / numpy.linalg / numpy.fft / scipy.linalg / scipy.special namesake (discovered, not listed; expm left out as a documented approximation) x {Python float, int, numpy.float64, 0-d, 1-d, 2-d C/F/transposed, integer arrays} and 15 operand pairs/triples for namesakes with several operands: where the namesake returns a value the algopy function returns the same shape and values', s4, '10 argument kinds + 15 tuples, sizes <= 3')
     rep.extra['explanation'] = 'an executable specification (NumPy itself) is the oracle; deduction adds nothing beyond the y[0] = f(x[0]) clause that is part of every kernel contract under C01/C02/C07'
     return 0
